@@ -59,9 +59,22 @@ class Harness:
         problem allow that action in `st`.  Must NOT call repo helpers."""
         raise NotImplementedError
 
+    def allowed_by(self, mask, act):
+        """[V-bool per agent]: does `mask` (object array shaped like the observation's mask) allow `act`?
+        Default covers: flat single-agent (mask (n,), act ()), per-agent (mask (A,n), act (A,)), and
+        multi-discrete single-agent (mask (n1,..,nk), act (k,))."""
+        from engine.vexpr import pick
+        mask = np.asarray(mask, dtype=object)
+        a = vs(act)
+        if isinstance(a, V):
+            return [pick(mask, a)]
+        if mask.ndim == 2 and a.shape == (mask.shape[0],) and not getattr(self, "MULTI_DISCRETE", False):
+            return [pick(mask[i], a[i]) for i in range(len(a))]
+        return [pick(mask, *list(a))]
+
     def action_legal(self, st, act):
         """[V-bool per agent] legality of the concrete/symbolic action `act` under mask_rule"""
-        raise NotImplementedError
+        return self.allowed_by(self.mask_rule(st), act)
 
     def treated_invalid(self, st, act, ns, ts):
         """[V-bool per agent] the environment's own reaction marks the action as invalid (C04b)"""
